@@ -372,7 +372,8 @@ func wrapArtifactResponse(respEl *etree.Element, id, inResponseTo, issuer, statu
 // ---------------------------------------------------------------- string populations
 
 // markers: unique, recognisable user strings
-func marker(kind string, i int) string { return fmt.Sprintf("zq%s%dqz", kind, i) }
+// marker strings are mixed-case on purpose: a change that folds case somewhere on the way alters them
+func marker(kind string, i int) string { return fmt.Sprintf("zQ%s%dQz", kind, i) }
 
 func containsAny(hay string, needles []string) string {
 	for _, n := range needles {
